@@ -30,7 +30,7 @@ import (
 func init() {
 	register(&Property{
 		ID:    "C23",
-		Level: "fault_enumeration",
+		Level: "exploration",
 		Rule: "cases = 1..4 legacy swamps x <=30 writes/modifies/deletes (chunk size 200..8192 bytes, all value kinds, metadata) produced by the real V1 engine; migrator options Verify/DeleteOld/Parallel seeded; fault plan: none | one failing file operation of the migration (EIO/ENOSPC/short write, operation index seeded over the operations the fault-free migration issues) | a stale .hyd next to the folder; " +
 			"oracle: for each swamp, migration reported success => V2 load == V1 load (keys, values, metadata) and the stored name == the swamp's name; reported failure => the V1 folder still loads exactly as before; non-trivial = at least one swamp with modified or deleted records was migrated, or a fault fired; distinct = hash of (history, options, fault, outcome)",
 		Gen: genC23,
